@@ -13,7 +13,8 @@
 (* Join is the documented reading of a file: a line ending in a backslash is joined with the    *)
 (* next one; a comment runs to the end of the (joined) line; lines without words vanish; a      *)
 (* line whose first word is a reserved connective or comparison continues the command before    *)
-(* it (`load` excepted).  LayoutPreserved: Join(lines) = Cmds in every reachable layout - the    *)
+(* it (`load` excepted; a `load` command pulls in a second file, which is read by the same     *)
+(* rules on its own - no command continues across the end of a file).  LayoutPreserved: Join(lines) = Cmds in every reachable layout - the    *)
 (* documented reading itself is unambiguous under the stated side conditions (ASSUME).          *)
 (* The harness builds every layout TLC reaches and compares house, run and the words handed     *)
 (* to Builder.dispatch with the canonical layout (vf/families/layout.py).                       *)
@@ -23,8 +24,10 @@ CONSTANTS MaxActs,   \* number of layout actions applied to the canonical layout
           Emit       \* "all": print every layout reached (exhaustive search); "final": print the layout after
                      \* MaxActs actions (simulation); "none".  One JSON object per line, read by the harness
 
-\* the abstract script arrives as JSON (words may contain quotes and #): {"cmds": [[word, ...], ...]}
+\* the abstract script arrives as JSON (words may contain quotes and #): {"cmds": [[word, ...], ...], "sub": [[word, ...], ...]}
+\* "sub" (optional) is the abstract script of a second file that a `load` command of "cmds" pulls in
 Input == JsonDeserialize(IOEnv.LAYOUT_INPUT)
+InputSub == IF "sub" \in DOMAIN Input THEN Input.sub ELSE <<>>
 
 Comparisons == {"==", "<", "<=", ">=", ">", "!="}
 Connectives == {"to", "by", "with", "from", "per", "for", "cum", "qua", "via", "as", "at", "in", "of", "on",
@@ -33,7 +36,7 @@ Reserved == Connectives \cup Comparisons
 
 \* side conditions under which the documented rule is unambiguous
 WellFormed(cs) == \A i \in 1..Len(cs) : Len(cs[i]) > 0 /\ cs[i][1] \notin Reserved
-ASSUME WellFormed(Input.cmds)
+ASSUME WellFormed(Input.cmds) /\ WellFormed(InputSub)
 
 \* a physical line: kind "code" (words), "blank" or "comment"; ind = leading white space (0 none, 1 two spaces,
 \* 2 six spaces, 3 a tab); bs = ends in a backslash; tc = carries a trailing comment
@@ -43,52 +46,44 @@ CommentLine == [kind |-> "comment", toks |-> <<>>, ind |-> 0, bs |-> FALSE, tc |
 
 VARIABLES Cmds,      \* the abstract script: sequence of commands, a command is a non-empty sequence of words
                      \* (read once from the input; never changes)
-          lines,     \* the physical lines
+          SubCmds,   \* the abstract script of the loaded file (empty: there is none)
+          lines,     \* the physical lines of the file
+          sub,       \* the physical lines of the loaded file
           n,         \* number of layout actions applied
           fin        \* the layout has been handed over (simulation only)
-vars == <<Cmds, lines, n, fin>>
+vars == <<Cmds, SubCmds, lines, sub, n, fin>>
 
 Canonical(cs) == [i \in 1..Len(cs) |-> Code(cs[i], 0, FALSE, FALSE)]
-Init == Cmds = Input.cmds /\ lines = Canonical(Cmds) /\ n = 0 /\ fin = FALSE
+Init == /\ Cmds = Input.cmds /\ SubCmds = InputSub
+        /\ lines = Canonical(Cmds) /\ sub = Canonical(SubCmds) /\ n = 0 /\ fin = FALSE
 
-Replace(i, new) == SubSeq(lines, 1, i - 1) \o new \o SubSeq(lines, i + 1, Len(lines))
-InsertLine(i, l) == SubSeq(lines, 1, i - 1) \o <<l>> \o SubSeq(lines, i, Len(lines))
-Step == n < MaxActs /\ n' = n + 1 /\ UNCHANGED <<Cmds, fin>>
+\* ---- the layouts one action away from the layout ls of one file
+ReplaceIn(ls, i, new) == SubSeq(ls, 1, i - 1) \o new \o SubSeq(ls, i + 1, Len(ls))
+InsertIn(ls, i, l) == SubSeq(ls, 1, i - 1) \o <<l>> \o SubSeq(ls, i, Len(ls))
+Indents(ls) == {[ls EXCEPT ![i].ind = k] : i \in 1..Len(ls), k \in 0..3} \ {ls}
+SplitAt(ls, i, j, bs) == LET l == ls[i] IN
+    ReplaceIn(ls, i, << Code(SubSeq(l.toks, 1, j), l.ind, bs, FALSE),
+                        Code(SubSeq(l.toks, j + 1, Len(l.toks)), 0, l.bs, l.tc) >>)
+Boundaries(ls) == {<<i, j>> \in (1..Len(ls)) \X (1..20) : ls[i].kind = "code" /\ j < Len(ls[i].toks)}
+BackslashSplits(ls) == {SplitAt(ls, b[1], b[2], TRUE) : b \in Boundaries(ls)}
+\* before a reserved connective; a load command cannot be continued
+ConnectiveSplits(ls) == {SplitAt(ls, b[1], b[2], FALSE) :
+                            b \in {c \in Boundaries(ls) : ls[c[1]].toks[c[2] + 1] \in Reserved /\ ls[c[1]].toks[1] # "load"}}
+Separable(ls, i) == IF i = 1 THEN TRUE ELSE ~ls[i - 1].bs     \* a new line may be put before position i
+Inserts(ls, l) == {InsertIn(ls, i, l) : i \in {k \in 1..(Len(ls) + 1) : Separable(ls, k)}}
+TrailComments(ls) == {[ls EXCEPT ![i].tc = TRUE] : i \in {k \in 1..Len(ls) : ls[k].kind = "code" /\ ~ls[k].bs /\ ~ls[k].tc}}
 
-Indent(i, k) == /\ Step
-                /\ lines[i].ind # k
-                /\ lines' = [lines EXCEPT ![i].ind = k]
-
-SplitBackslash(i, j) == LET l == lines[i] IN
-    /\ Step
-    /\ l.kind = "code" /\ j < Len(l.toks)
-    /\ lines' = Replace(i, << Code(SubSeq(l.toks, 1, j), l.ind, TRUE, FALSE),
-                              Code(SubSeq(l.toks, j + 1, Len(l.toks)), 0, l.bs, l.tc) >>)
-
-SplitConnective(i, j) == LET l == lines[i] IN
-    /\ Step
-    /\ l.kind = "code" /\ j < Len(l.toks) /\ l.toks[j + 1] \in Reserved
-    /\ l.toks[1] # "load"          \* a load command cannot be continued
-    /\ lines' = Replace(i, << Code(SubSeq(l.toks, 1, j), l.ind, FALSE, FALSE),
-                              Code(SubSeq(l.toks, j + 1, Len(l.toks)), 0, l.bs, l.tc) >>)
-
-Separable(i) == IF i = 1 THEN TRUE ELSE ~lines[i - 1].bs     \* a new line may be put before position i
-InsertBlank(i) == Step /\ Separable(i) /\ lines' = InsertLine(i, BlankLine)
-InsertComment(i) == Step /\ Separable(i) /\ lines' = InsertLine(i, CommentLine)
-
-TrailComment(i) == /\ Step
-                   /\ lines[i].kind = "code" /\ ~lines[i].bs /\ ~lines[i].tc
-                   /\ lines' = [lines EXCEPT ![i].tc = TRUE]
-
-AnyIndent == \E i \in 1..Len(lines) : \E k \in 0..3 : Indent(i, k)
-AnySplitBackslash == \E i \in 1..Len(lines) : \E j \in 1..Len(lines[i].toks) : SplitBackslash(i, j)
-AnySplitConnective == \E i \in 1..Len(lines) : \E j \in 1..Len(lines[i].toks) : SplitConnective(i, j)
-AnyInsertBlank == \E i \in 1..(Len(lines) + 1) : InsertBlank(i)
-AnyInsertComment == \E i \in 1..(Len(lines) + 1) : InsertComment(i)
-AnyTrailComment == \E i \in 1..Len(lines) : TrailComment(i)
+Step == n < MaxActs /\ n' = n + 1 /\ UNCHANGED <<Cmds, SubCmds, fin>>
+\* a layout action changes one of the two files
+AnyIndent == Step /\ ((lines' \in Indents(lines) /\ UNCHANGED sub) \/ (sub' \in Indents(sub) /\ UNCHANGED lines))
+AnySplitBackslash == Step /\ ((lines' \in BackslashSplits(lines) /\ UNCHANGED sub) \/ (sub' \in BackslashSplits(sub) /\ UNCHANGED lines))
+AnySplitConnective == Step /\ ((lines' \in ConnectiveSplits(lines) /\ UNCHANGED sub) \/ (sub' \in ConnectiveSplits(sub) /\ UNCHANGED lines))
+AnyInsertBlank == Step /\ ((lines' \in Inserts(lines, BlankLine) /\ UNCHANGED sub) \/ (sub' \in Inserts(sub, BlankLine) /\ UNCHANGED lines))
+AnyInsertComment == Step /\ ((lines' \in Inserts(lines, CommentLine) /\ UNCHANGED sub) \/ (sub' \in Inserts(sub, CommentLine) /\ UNCHANGED lines))
+AnyTrailComment == Step /\ ((lines' \in TrailComments(lines) /\ UNCHANGED sub) \/ (sub' \in TrailComments(sub) /\ UNCHANGED lines))
 Finish == /\ Emit = "final" /\ n = MaxActs /\ ~fin
-          /\ fin' = TRUE /\ UNCHANGED <<Cmds, lines, n>>
-          /\ PrintT(ToJson([n |-> n, lines |-> lines]))
+          /\ fin' = TRUE /\ UNCHANGED <<Cmds, SubCmds, lines, sub, n>>
+          /\ PrintT(ToJson([n |-> n, lines |-> lines, sub |-> sub]))
 Next == \/ AnyIndent \/ AnySplitBackslash \/ AnySplitConnective \/ AnyInsertBlank \/ AnyInsertComment \/ AnyTrailComment
         \/ Finish
 Spec == Init /\ [][Next]_vars
@@ -111,11 +106,20 @@ Join(ls) == LET r == FoldLeft(ReadLine, [cmds |-> <<>>, cur |-> <<>>, cut |-> FA
             IF r.open THEN EndLine(r.cmds, r.cur) ELSE r.cmds      \* a backslash on the last line joins nothing
 
 \* ------------------------------------------------------------------ properties
-TypeOK == /\ n \in 0..MaxActs
-          /\ \A i \in 1..Len(lines) : lines[i].kind \in {"code", "blank", "comment"} /\ lines[i].ind \in 0..3
-LayoutPreserved == Join(lines) = Cmds
+\* what the builder is handed when it reads the file: the commands of the file, those of the loaded file right after
+\* the load command (a command never continues across the end of a file)
+RECURSIVE SpliceFrom(_, _, _)
+SpliceFrom(cs, ss, i) == IF i > Len(cs) THEN <<>>
+                         ELSE IF cs[i][1] = "load" /\ ss # <<>> THEN <<cs[i]>> \o ss \o SubSeq(cs, i + 1, Len(cs))
+                         ELSE <<cs[i]>> \o SpliceFrom(cs, ss, i + 1)
+Splice(cs, ss) == SpliceFrom(cs, ss, 1)
+Dispatched == Splice(Join(lines), Join(sub))
+
+LinesOK(ls) == \A i \in 1..Len(ls) : ls[i].kind \in {"code", "blank", "comment"} /\ ls[i].ind \in 0..3
+TypeOK == n \in 0..MaxActs /\ LinesOK(lines) /\ LinesOK(sub)
+LayoutPreserved == Join(lines) = Cmds /\ Join(sub) = SubCmds /\ Dispatched = Splice(Cmds, SubCmds)
 \* no word is lost, duplicated or reordered by a layout action
 Flat(ls) == FoldLeft(LAMBDA acc, l : acc \o l.toks, <<>>, ls)
-WordsKept == [][Flat(lines') = Flat(lines)]_vars
-EmitLayout == Emit = "all" => PrintT(ToJson([n |-> n, lines |-> lines]))
+WordsKept == [][Flat(lines') = Flat(lines) /\ Flat(sub') = Flat(sub)]_vars
+EmitLayout == Emit = "all" => PrintT(ToJson([n |-> n, lines |-> lines, sub |-> sub]))
 =============================================================================
